@@ -212,13 +212,16 @@ Definition ex_schema : gschema :=
     gs_zero gs_zero 0 [])) [].
 
 Example C14_ex_parse : unmarshal ex_doc = Some ex_schema /\ gs_normal ex_schema = true /\ wf_gschema ex_schema.
-Proof. repeat split; vm_compute; reflexivity. Qed.
+Proof. split; [|split]; vm_compute; reflexivity. Qed.
 
 Example C14_ex_roundtrip :
   unmarshal (marshal ex_schema) = Some ex_schema /\ json_nodup ex_doc = true /\
   unmarshal (strip ex_doc) = Some ex_schema /\ strip ex_doc <> ex_doc /\
   marshal_impl ex_schema = Some (marshal ex_schema).
-Proof. repeat split; try (vm_compute; reflexivity). vm_compute. discriminate. Qed.
+Proof.
+  split; [vm_compute; reflexivity|]. split; [vm_compute; reflexivity|]. split; [vm_compute; reflexivity|].
+  split; [vm_compute; discriminate|vm_compute; reflexivity].
+Qed.
 
 (* the same members in another order, at two depths *)
 Example C14_ex_key_order :
@@ -259,10 +262,12 @@ Example C14_ex_malformed :
   (* and the lenient cases the library defines: null for a string / slice / int field *)
   unmarshal (JObj [(b "type", JStr (b "record")); (b "name", JNull); (b "fields", JNull); (b "size", JNull)])
     = Some (GS (b "record") (Some gobj_empty) []).
-Proof. repeat split; vm_compute; reflexivity. Qed.
+Proof. do 10 (split; [vm_compute; reflexivity|]). vm_compute; reflexivity. Qed.
 
 Example C14_ex_generated :
-  exists s, schema_for_type sreg_std (TStruct (b "T") (b "pkg/x")
-              [GF (b "A") true (b "a,omitempty") [] (TSlice TString); GF (b "B") true [] [] (TPtr (TInt I64))]) = Some s
-            /\ unmarshal (marshal s) = Some s.
-Proof. eexists. split; vm_compute; reflexivity. Qed.
+  match schema_for_type sreg_std (TStruct (b "T") (b "pkg/x")
+          [GF (b "A") true (b "a,omitempty") [] (TSlice TString); GF (b "B") true [] [] (TPtr (TInt I64))]) with
+  | Some s => gs_normal s = true /\ unmarshal (marshal s) = Some s
+  | None => False
+  end.
+Proof. vm_compute. split; reflexivity. Qed.
